@@ -28,7 +28,25 @@ CHECK_DEADLOCK FALSE
 """
 
 
+_last_pad = [None]
+
+
 def gen_padding(rng):
+    p = _gen_padding(rng)
+    prev = _last_pad[0]
+    if prev and rng.random() < 0.35:
+        # same padded size as the previous padding, different margins / alignment
+        if prev["kind"] == "aligned":
+            p = dict(prev, ha=rng.randrange(3), va=rng.randrange(3))
+        else:
+            tot_w, tot_h = prev["l"] + prev["r"], prev["t"] + prev["b"]
+            l, t = rng.randrange(tot_w + 1), rng.randrange(tot_h + 1)
+            p = {"kind": "exact", "l": l, "t": t, "r": tot_w - l, "b": tot_h - t}
+    _last_pad[0] = p
+    return p
+
+
+def _gen_padding(rng):
     roll = rng.random()
     if roll < 0.3:
         return {"kind": "exact", "l": rng.randrange(3), "t": rng.randrange(3), "r": rng.randrange(3), "b": rng.randrange(3)}
